@@ -67,7 +67,7 @@ Section Sound3.
       assert (Wk : wf k = true) by (apply (children_wf (EMul c ((k, v) :: d'))); [exact We | cbn; left; reflexivity]).
       cbn [merase] in Vb. rewrite (kl_irrefl k Wk) in Vb.
       destruct (EI a a' Wa Ea') as [_ Va']. destruct (EI b b' Wb Eb') as [_ Vb'].
-      destruct (s_mul_expand_two rho rhoc _ _ _ _ _ H I) as [I' V]. split; [exact I'|].
+      destruct (s_mul_expand_two rho rhoc _ _ _ _ _ _ H I) as [I' V]. split; [exact I'|].
       rewrite V, Va', Vb', Va, Vb, (denote_EMul' rho rhoc), (wp_cons rho rhoc). cbn [fst snd]. rewrite Ev. cbn [qpow]. ring.
     - (* Pow *)
       apply bind_ok in H. destruct H as (base' & Eb' & H).
